@@ -96,7 +96,7 @@ fn run(cfg: &RunCfg) -> Report {
         cmd_len_max: if small { 0 } else { cfg.pick(24, 48) as usize },
         truncations: !small,
         lengths: !small,
-        random: if small { 300_000 } else { cfg.pick(1_500_000, 150_000_000) },
+        random: if small { 300_000 } else { cfg.pick(6_000_000, 150_000_000) },
     };
     // three long-lived contexts per shard; inputs rotate over them
     let cfgs: Vec<CtxCfg> = (0..3).map(|_| CtxCfg::random(&mut crng, false)).collect();
